@@ -85,6 +85,8 @@ def make_input(kind, name, st: State, ex: Exec):
         return st.new(Cell("list", val=Val("l", z3.Const(name, ListS))))
     if kind == "set":
         return st.new(Cell("set", val=Val("st", z3.Const(name, SetS))))
+    if kind == "intset":
+        return st.new(Cell("set", val=Val("sti", z3.Const(name, sym.ISetS))))
     if kind == "obj":
         return st.new(Cell("obj", fields={}, cls=None, lazy=True, path=name))
     if kind == "none":
